@@ -98,7 +98,7 @@ def check_C07(ctx):
 LEVEL["C16"] = ("Decides the structural clause of C16 only: no panic source is reachable inside the decode closure (DECODE-NOPANIC, with the RefCell "
                 "borrows justified by BORROW-SCOPE); every attachment is moved out of its slot when handed out, so a reused or out-of-range index "
                 "takes the error path (DECODE-TAKE-ONCE); library code never unwraps a decode result (DECODE-RESULT-UNWRAP); attachments that were "
-                "never handed out are closed by Drop (FD-DROP of the opaque channel type). Not decided: which error is returned; bincode/serde "
+                "never handed out go back into the message (TLS-RESTORE on the decode side, also on the error exit) and are closed by its Drop (FD-DROP of the opaque channel type). Not decided: which error is returned; bincode/serde "
                 "internals on hostile input (external cut point).")
 
 
@@ -112,6 +112,7 @@ def check_C16(ctx):
         ctx.rule("DECODE-TAKE-ONCE").floor("conversion_sites[%s]" % cfg, 3, cfg)
         decode.rule_result_unwrap(ctx, cfg, F)
         ctx.rule("DECODE-RESULT-UNWRAP").floor("decode_calls[%s]" % cfg, 4, cfg)
+        tls.rule_tls_restore(ctx, cfg, F)
     for cfg, F in ctx.configs(["K1", "K2"]):
         model = fd.build_model(F)
         fd.rule_fd_drop(ctx, cfg, F, model)
@@ -523,8 +524,9 @@ def check_C20(ctx):
 
 
 LEVEL["C19"] = ("Decides the build- and surface-level clauses of C19 only: every Linux configuration type-checks against the shared layers (BUILD-ALL); the OS and in-process transports "
-                "export the same platform surface (SURFACE-PARITY); both satisfy the same error-class mapping (ERR-MAP), mode table (MODE-TABLE), id provenance (SET-ID), side-table "
-                "discipline (TLS-RESTORE) and decode rules, evaluated per backend and reported side by side. Not decided: result sequences of programs; the ideal-FIFO comparison.")
+                "export the same platform surface (SURFACE-PARITY); both satisfy the same error-class mapping (ERR-MAP, ZERO-READ / TIMEOUT-ARM / NB-PAIR on the OS side, ERR-CLASS-INPROC on the in-process side), mode table "
+                "(MODE-TABLE), id provenance (SET-ID), side-table discipline (TLS-RESTORE), index discipline (IDX-POS) and one-shot-server ownership and naming "
+                "(OSS-OWN, OSS-NAME), evaluated per backend and reported side by side. Not decided: result sequences of programs; the ideal-FIFO comparison.")
 
 
 def check_C19(ctx):
@@ -543,6 +545,15 @@ def check_C19(ctx):
         tls.rule_tls_restore(ctx, cfg, F)
         rset.rule_set_id(ctx, cfg, F, "unix" if cfg == "K1" else "inprocess")
         ipcl.rule_idx_pos(ctx, cfg, F)
+        oss.rule_oss_own(ctx, cfg, F, "unix" if cfg == "K1" else "inprocess")
+        oss.rule_oss_name(ctx, cfg, F, "unix" if cfg == "K1" else "inprocess")
+    # outcome classes of each transport's receive path: a divergence in one backend is a divergence between backends
+    for cfg, F in ctx.configs(["K1", "K2"]):
+        recv.rule_zero_read(ctx, cfg, F)
+        recv.rule_timeout_arm(ctx, cfg, F)
+        recv.rule_nb_pair(ctx, cfg, F)
+    for cfg, F in ctx.configs(["K3"]):
+        recv.rule_inproc_classes(ctx, cfg, F)
     ctx.assume("the macOS and Windows backends cannot be type-checked on this host and are out of scope")
 
 
